@@ -7,6 +7,16 @@ BASE = ("cd /repo && /venv/bin/python -m pytest -ra -q -p no:cacheprovider --tim
         "--continue-on-collection-errors")
 
 CLAIMED = {
+    'C13': dict(
+        text="NumExpr.tla transcribes the concrete syntax tree of number expressions and the parenthesisation helpers; TLC proves over exact rationals that the value of every result equals the arithmetic result for all operator chains (depth 2-3, plain / in-place / reflected / unary, int / Decimal / expression operands) from 11 initial shapes; every chain is replayed on real NumberExpr objects, free-standing and attached in postings, balances and meta values: value, independent left-to-right Decimal evaluation of the printed text, re-parse, operands and their documents unchanged for non-in-place forms, document frame for in-place forms.",
+        note="Structure over exact rationals in the specification; decimal accuracy only by comparison with an independent evaluator. Division by zero excluded.",
+        technique="TLA+ NumExpr value invariant (TLC) + chain replay on the real operators",
+        ref="§6 C13"),
+    'C16': dict(
+        text="Editor.tla models a recursive / single-file editing session over a disk: include graphs (by name, *.bean, **/*.bean, dangling), BFS reachability, body operations (edit, edit-and-revert, delete key, add key, add empty file), normal and raising exit, with the expected final disk in every behaviour; TLC checks reachability invariants and enumerates all sessions; each is replayed on the real Editor in a temporary directory comparing bytes, existence, mtime (not rewritten), mapping keys and parse count (each file once).",
+        note="3 (quick) / 4 (thorough) files in a 3-level directory tree; 5 root spellings; LF / CRLF / mixed / no final newline.",
+        technique="TLA+ Editor session model (TLC) replayed on real temporary directories",
+        ref="§6 C16"),
     'C02': dict(
         text="Every token of every Layout.tla document is assigned replacement values/raw texts (per-kind classes: same width, wider, narrower, adding/removing line breaks, non-canonical spellings) singly and in sequences; each assignment is one recorded event with the full observation battery, and TLC validates every trace against TokenSeqTrace.tla: row identity/order and length unchanged, every other token keeps its text, the assigned token carries exactly the assigned text, refused assignments are stutters.",
         note="Documents of <= 3-4 lines (<= 48 tokens), a few replacement representatives per token kind, load factor rotated over 2,3,4,1000.",
